@@ -44,19 +44,24 @@
 (*                     folded (1/0, [1][5], 1 << 64, [0; -1]) is reported by *)
 (*                     the checker with the class of the run-time error;    *)
 (*                     here such a program is well typed (the conformance   *)
-(*                     step counts these apart, class "fold-error").         *)
+(*                     step counts these apart, class "fold").               *)
 (*  D5 post-fold names a top-level name bound to an expression that folds   *)
-(*                     to a constant has the constant's exact type for the  *)
-(*                     statements that follow (D1/D2 propagate through it); *)
-(*                     here: the unfolded type.                              *)
-(*  D6 `mut e'         the cell type of the untyped form is the static type *)
-(*                     of e; here TypeOf(e) (wider under D1/D2); the AST's   *)
-(*                     stated `ty' is not consulted.                         *)
-(*  D7 while-set scope the implementation checks the tested expression of   *)
+(*                     has the folded expression's type for the statements  *)
+(*                     that follow (D1/D2 propagate through it), so the     *)
+(*                     implementation accepts `x := if true {1} else {"a"};  *)
+(*                     x + 1'; here: the unfolded type, and a rejection.     *)
+(*  D6 while-set scope the implementation checks the tested expression of   *)
 (*                     `while x: T = e' with the loop flag already set      *)
 (*                     (a `break' nested in e is accepted); transcribed.     *)
-(*  D8 dropped constants  a bare constant in non-last statement position is *)
+(*  D7 dropped constants  a bare constant in non-last statement position is *)
 (*                     dropped by the parser; no effect on typing.           *)
+(* D1, D2 and D5 are the only ones that make the two types (or verdicts)    *)
+(* differ.  FoldSensitive(prog) below over-approximates the programs in     *)
+(* which they can occur (an `if' whose condition, or an index expression    *)
+(* whose operands, may fold to a constant outside function bodies).  For    *)
+(* every other program the conformance step demands EQUAL static types and  *)
+(* equal verdicts.  (The untyped `mut e' takes the type e has when the      *)
+(* instruction is created, before folding: no difference.)                  *)
 (***************************************************************************)
 EXTENDS Lang
 
@@ -211,7 +216,7 @@ Kids(e, cx) ==
     [] e.k = "match"  -> <<Kid(e.e, cx)>> \o ArmsKids(e.arms, cx, 1)
     [] e.k = "loop"   -> <<Kid(e.b, InLoop(cx))>>
     [] e.k = "while"  -> <<Kid(e.c, cx), Kid(e.b, InLoop(cx))>>
-    \* D7: the tested expression is checked with the loop flag already set
+    \* D6: the tested expression is checked with the loop flag already set
     [] e.k = "whileset" -> <<Kid(e.e, InLoop(cx)), Kid(e.b, InLoop(WithName(cx, e.n, Unwire(e.ty))))>>
     [] e.k = "for"    -> <<Kid(e.e, cx)>>         \* the body depends on the iterator's type: Kids2
     [] e.k = "ret"    -> KidsIn(Present(e.e), cx)
@@ -278,7 +283,7 @@ Rule(e, cx, ts, bs) ==
     [] e.k = "deref" -> IF ~QIsMut(ts[1]) THEN Rej("IncorectUnaryOperatorOperand") ELSE QMutElementType(ts[1])
     [] e.k = "bin" -> IF BinOk(e.op, ts[1], ts[2]) THEN BinType(e.op, ts[1], ts[2]) ELSE Rej("CannotDo2")
     [] e.k \in {"and", "or"} -> IF ts[1] = TBool /\ ts[2] = TBool THEN TBool ELSE Rej("CannotDo2")
-    [] e.k = "mut" ->         \* D6: the untyped form takes the static type of its initial value
+    [] e.k = "mut" ->         \* the untyped form takes the static type of its initial value
          IF "u" \in DOMAIN e THEN MutT(ts[1])
          ELSE IF Matches(ts[1], Unwire(e.ty)) THEN MutT(Unwire(e.ty)) ELSE Rej("WrongInitialization")
     [] e.k = "asg" -> AsgType(e.op, ts[1], ts[2])
@@ -384,6 +389,52 @@ TypeStmts(ss, cx) ==
 
 TypeProg(prog) == TypeStmts(prog, Cx(InitTEnv, NoneV, FALSE))
 Accepts(prog) == ~IsRej(TypeProg(prog))
+
+(***************************************************************************)
+(* Sensitivity to constant folding (named differences D1, D2, D5).          *)
+(* ConstE(e, K): e may fold to a constant when the names in K are bound to   *)
+(* constants (what recreate / create_from_instructions fold: literals,       *)
+(* arrays, tuples and repetitions of constants, scalar operators, indexing;  *)
+(* blocks, structs, calls, cells never fold).  FoldSensitive(prog): outside  *)
+(* function bodies (which are not folded when a program is checked) some     *)
+(* `if' has a condition, or some index expression has operands, that may     *)
+(* fold.  An over-approximation: names bound by constructs are not           *)
+(* constants, a name re-bound to a non-constant leaves K.                    *)
+(***************************************************************************)
+RECURSIVE ConstE(_, _), SensE(_, _), SensStmts(_, _)
+ConstE(e, K) ==
+  CASE e.k = "lit" -> TRUE
+    [] e.k = "var" -> e.n \in K
+    [] e.k \in {"arr", "tup"} -> \A i \in 1..Len(e.es) : ConstE(e.es[i], K)
+    [] e.k = "rep" -> ConstE(e.v, K) /\ ConstE(e.len, K)
+    [] e.k \in {"bin", "and", "or"} -> ConstE(e.l, K) /\ ConstE(e.r, K)
+    [] e.k \in {"neg", "not"} -> ConstE(e.e, K)
+    [] e.k = "at" -> ConstE(e.e, K) /\ ConstE(e.i, K)
+    [] e.k = "if" -> ConstE(e.c, K)
+    [] OTHER -> FALSE
+BoundIn(kid) == {kid.cx.env[j].n : j \in 1..Len(kid.cx.env)}
+SensE(e, K) ==
+  LET ks == Kids(e, Cx(<<>>, NoneV, FALSE))       \* the sub-expressions; their contexts hold just the names bound for them
+      sub == \E i \in 1..Len(ks) : SensE(ks[i].e, K \ BoundIn(ks[i]))
+  IN CASE e.k = "if" -> ConstE(e.c, K) \/ sub
+       [] e.k = "at" -> (ConstE(e.e, K) /\ ConstE(e.i, K)) \/ sub
+       [] e.k = "for" -> sub \/ SensE(e.b, K \ {e.n})
+       [] e.k \in {"block", "mod", "import"} -> SensStmts(e.body, K)
+       [] e.k = "fn" -> FALSE
+       [] OTHER -> sub
+SensStmts(ss, K) ==
+  IF ss = <<>> THEN FALSE
+  ELSE LET s == Head(ss) IN
+       CASE s.k = "set" ->
+              SensE(s.e, K) \/ SensStmts(Tail(ss), IF ConstE(s.e, K) THEN K \cup {s.n} ELSE K \ {s.n})
+         [] s.k = "destruct" ->
+              SensE(s.e, K) \/
+              SensStmts(Tail(ss), (K \ {s.ns[i] : i \in 1..Len(s.ns)}) \cup
+                                  {s.ns[i] : i \in {j \in 1..Len(s.ns) :
+                                      IF s.e.k = "tup" /\ j <= Len(s.e.es) THEN ConstE(s.e.es[j], K) ELSE ConstE(s.e, K)}})
+         [] s.k = "fndecl" -> SensStmts(Tail(ss), K \ {s.n})
+         [] OTHER -> SensE(s, K) \/ SensStmts(Tail(ss), K)
+FoldSensitive(prog) == SensStmts(prog, {})
 
 \* type in Types.tla form -> wire form (unions as sequences, structs as sorted pair lists), for reports
 RECURSIVE Wire(_)
